@@ -389,6 +389,80 @@ func search(c *core.Ctx, mode string, depth int) {
 	}
 }
 
+// wide: many subscribers on one node (the sets start with room for 16), many members in a share group, many filters
+// below one node: every direct subscriber once, exactly one member per group, and an empty index afterwards.
+func wide(c *core.Ctx) {
+	for _, mode := range []string{"", "mqtt"} {
+		for _, n := range []int{15, 16, 17, 33, 100, 300} {
+			c.Add("wide_cases", 1)
+			t := newTrie(mode)
+			direct := map[string]bool{}
+			var subs []*subscriber
+			for i := 0; i < n; i++ {
+				s := &subscriber{fmt.Sprintf("d%d", i)}
+				subs = append(subs, s)
+				direct[s.id] = true
+				t.Subscribe(mkChannel(1, "a/"), s)
+				t.Subscribe(mkChannel(1, fmt.Sprintf("a/n%d/", i)), s) // n children below a/
+			}
+			group := map[string]bool{}
+			for i := 0; i < n; i++ {
+				s := &subscriber{fmt.Sprintf("g%d", i)}
+				subs = append(subs, s)
+				group[s.id] = true
+				t.Subscribe(mkChannel(1, "$share/g1/a/"), s)
+			}
+			bad := func(kind, what string) {
+				c.Violate(fmt.Sprintf("%s:wide:%s", modeName(mode), kind), fmt.Sprintf("%d direct subscribers and a share group of %d on a/: %s", n, n, what), map[string]interface{}{"part": "wide", "mode": mode, "n": n})
+			}
+			for rep := 0; rep < 4; rep++ {
+				got := ids(t.Lookup(mkChannel(1, "a/"), nil))
+				nd, ng := 0, 0
+				for id := range got {
+					switch {
+					case direct[id]:
+						nd++
+					case group[id]:
+						ng++
+					default:
+						bad("extra-recipient", "lookup returned "+id)
+					}
+				}
+				if nd != n {
+					bad("missing-recipient", fmt.Sprintf("lookup returned %d of the %d direct subscribers", nd, n))
+				}
+				if ng != 1 {
+					bad("share-group", fmt.Sprintf("lookup returned %d members of the share group, expected exactly one", ng))
+				}
+			}
+			if got := ids(t.Lookup(mkChannel(1, fmt.Sprintf("a/n%d/", n-1)), nil)); mode == "" && (len(got) != n+1) {
+				bad("missing-recipient", fmt.Sprintf("lookup of a/n%d/ returned %d recipients, expected %d (every a/ subscriber and one share member)", n-1, len(got), n+1))
+			}
+			if t.Count() != 3*n {
+				bad("count", fmt.Sprintf("Count() = %d, expected %d", t.Count(), 3*n))
+			}
+			for i, s := range subs {
+				if i < n {
+					t.Unsubscribe(mkChannel(1, "a/"), s)
+					t.Unsubscribe(mkChannel(1, fmt.Sprintf("a/n%d/", i)), s)
+				} else {
+					t.Unsubscribe(mkChannel(1, "$share/g1/a/"), s)
+				}
+			}
+			if nodes, pairs, count := t.VerifDump(); nodes != 0 || len(pairs) != 0 || count != 0 {
+				bad("leaked-node", fmt.Sprintf("after removing everything the index holds %d nodes, %d entries, count %d", nodes, len(pairs), count))
+			}
+		}
+	}
+}
+
+func modeName(mode string) string {
+	if mode == "" {
+		return "emitter"
+	}
+	return mode
+}
+
 // Subscribers.Random must return a member for every rnd.
 func randomPick(c *core.Ctx) {
 	rnds := []uint32{0, 1, 1<<31 - 1, 1 << 31, 1<<32 - 1}
@@ -727,6 +801,7 @@ func run(c *core.Ctx) {
 	search(c, "", depth)
 	search(c, "mqtt", depth)
 	randomPick(c)
+	wide(c)
 	bound := 2
 	if !c.Quick() {
 		bound = 3
@@ -797,5 +872,7 @@ func replay(c *core.Ctx, raw json.RawMessage) {
 		}
 	case "random":
 		randomPick(c)
+	case "wide":
+		wide(c)
 	}
 }
